@@ -31,6 +31,11 @@ RULE = (
     'drop injected there. Non-trivial: at least two clients were connected '
     'at the same time and a disconnect hit a holder or a waiter. Distinct = '
     'SHA-1 of the case JSON.'
+    ' acq carries a generated label (unique, shared, empty); part client run'
+    's comms.acquire / release or a database copy (Worker._do_copy) against'
+    ' the generated contention, the holder letting go at a generated phase '
+    'of the poll period; non-trivial there: the lock was held at the reques'
+    't, or a waiter queued before the copy is still waiting after it. '
 )
 ASSUMPTIONS = [
     'one acquire request per connection (what comms.acquire does); a slot '
